@@ -35,7 +35,7 @@ COLL_STREAM = dict(
              thorough=dict(VERIF_COLL_EXH=3, VERIF_COLL_RANDOM=2500, VERIF_COLL_MODS=1200, VERIF_COLL_GHOSTS=1)),
     # a wrong ModuleError wrapping shows on the `c mods` line only; everything else is the registry
     prop_ops=dict(C17=r'^c (?!mods|def)', C20=r'^c (mods|def|new)'),
-    rule='collection op sequences: corpus (D11/D12/D13 regressions), every sequence of length L over 15 colliding calls '
+    rule='collection op sequences: corpus (D11/D12/D13/D25/D26 regressions, nested modules), every sequence of length L over 15 colliding calls '
          '(plain/named/grouped/multi-return/result-object/alias adds, removes, a nested module, Build), random sequences '
          'over 6 service types + 2 interfaces + reserved types, 2 names, 2 groups, 3 lifetimes, valid and invalid option '
          'combinations, nil/typed-nil constructors, instances, void constructors; random module trees (depth <= 5, nil '
@@ -43,13 +43,6 @@ COLL_STREAM = dict(
          'collection; all queries after every step; Build followed by edits and resolution on the old provider. '
          'A scenario is non-trivial when it has at least one accepted and one rejected registration',
 )
-
-COLL_KNOWN_STREAM = dict(
-    name='coll-known', pkg='', files=['harness/coll/vc_coll_test.go'], test='TestVerifCollKnown$',
-    new_marker='c new', model=False, seeded=False, replayable=False,
-    rule='witnesses of the known findings of the collection slice, replayed with the monitors on',
-)
-
 
 def _mw_stream(fw):
     return dict(
@@ -79,7 +72,7 @@ PROPS = {
     'C05': dict(streams=[GRAPH_STREAM]),
     'C06': dict(streams=[GRAPH_STREAM]),
     'C19': dict(streams=[GRAPH_STREAM]),
-    'C17': dict(streams=[COLL_STREAM, COLL_KNOWN_STREAM], assumptions=[
+    'C17': dict(streams=[COLL_STREAM], assumptions=[
         "what reflection computes from a constructor value (Analyze, Implements, tag parsing, nil-ness) enters the model as "
         "request data written by the harness; the harness cross-checks it by comparing ToSlice() and the unexported views "
         "of the collection with what it generated, after every step"]),
